@@ -152,8 +152,10 @@ fn tokens(src: &str) -> Vec<String> {
     out
 }
 
+/// Shrinking predicate (only sources outside every known-defect class are shrunk): still unsound
+/// in the same way and still outside every class, so the shrinker cannot drift into a known one.
 fn unsound(src: &str, kind: &str) -> bool {
-    matches!(judge(src), Verdict::Unsound { kind: k, .. } if k == kind)
+    matches!(judge(src), Verdict::Unsound { kind: k, .. } if k == kind) && construct_class(src).is_none()
 }
 
 pub fn shrink(src: &str, kind: &str) -> String {
@@ -276,12 +278,9 @@ pub fn construct_class(core: &str) -> Option<&'static str> {
     }
     fn chain(c: &Chain, f: &mut Found) {
         if let Some(Match::Identifier(..)) = &c.match_pattern {
-            // `x = ~` / `x = $`: a bare binding of the (possibly nil) flowing value
-            if c.terms.len() == 1
-                && matches!(&c.terms[0], Term::Access(a) if matches!(a.source, Some(AccessSource::Ripple) | Some(AccessSource::Parameter)) && a.accessors.is_empty())
-            {
-                f.bare_binder = true;
-            }
+            // `x = e`: a bare binding accepts a nil `e` (whether it did is decided dynamically,
+            // by the reference run's "nil-accepted" event)
+            f.bare_binder = true;
         }
         for (i, t) in c.terms.iter().enumerate() {
             match t {
